@@ -230,10 +230,25 @@ func body(c *kernel.Ctx) {
 			}
 			return nil
 		})
+		// As in production, most nodes join the duty's instance at the duty's start (Participate, driven by the
+		// slot tick) and propose when their own data is there - which may be late (slow beacon node), even
+		// after the instance has decided on the other members' proposals.
+		participates := verifrt.Intn("w", 4) != 3
+		lateBy := time.Duration(verifrt.Intn("w", 1500)) * time.Millisecond
+		if verifrt.Intn("w", 4) == 3 {
+			lateBy = time.Duration(2000+verifrt.Intn("w", 6000)) * time.Millisecond
+			verifrt.Probe("late-own-proposal")
+		}
+		if participates {
+			verifrt.GoNode(nd.Tag, func() {
+				verifrt.Sleep(time.Until(dutyStart) + time.Duration(verifrt.Intn("w", 200))*time.Millisecond)
+				_ = nd.Cons.Participate(nd.Ctx, duty)
+			})
+		}
 		verifrt.GoNode(nd.Tag, func() {
-			verifrt.Sleep(time.Until(dutyStart) + time.Duration(verifrt.Intn("w", 1500))*time.Millisecond)
+			verifrt.Sleep(time.Until(dutyStart) + lateBy)
 			if verifrt.Intn("w", 8) == 7 {
-				return // this node never starts the duty (no proposal, no participation)
+				return // this node never proposes for the duty
 			}
 			nd.Sched.Trigger(nd.Ctx, duty, cl.DefSet(slot))
 		})
